@@ -39,6 +39,8 @@ def derive(datas, channel, ranges_known):
     for y, r in zip(datas, ranges_known):
         Ti = r if r is not None else float(np.max(y))
         T = max(T, Ti)
+    if T <= 0:
+        return T, None, None          # no valid logicle scale: construction must be refused
     M = max(4.5, 4.5 * math.log10(T) / math.log10(262144))
     W = 0
     for y in datas:
